@@ -223,10 +223,10 @@ def _lq_models(ctx):
 
 
 def _ip_model(ctx):
-    # ip("...") filters on IPv4: patterns x addresses around their edges x the ways an address stands in a line / a label
+    # ip("...") filters on IPv4 and IPv6 (every spelling): patterns x addresses around their edges x the ways an address stands in a line / a label
     return dict(name="ip", module="MC_Ip", consts=dict(Pools=V.tla_str(T(ctx, "quick", "full"))),
                 invariants=["WellFormed", "MatchIsInterval", "TextRoundTrip", "ScannerFindsIt", "NearAddressesAreNone", "LineFilterMeaning",
-                            "NegationIsComplement", "LabelFilterMeaning", "NeverChangesLine"])
+                            "NegationIsComplement", "LabelFilterMeaning", "NeverChangesLine", "FamiliesApart", "SpellingIsImmaterial"])
 
 
 @prop("C01")
